@@ -2,7 +2,7 @@
    P is an arbitrary problem (arbitrary callbacks, dimensions, bounds incl. infinite ones, row kinds),
    sc arbitrary integer weights.  (xt, yt) is the internal iterate (scaled variables followed by slacks),
    T = ConstrainedProblem(ScaledProblem(P)) the internal problem. *)
-From Verif Require Import Transform Iterate Loop CorrLoop VecLemmas TransformProofs IterateProofs KKTProofs LoopTop.
+From Verif Require Import Transform Iterate Flow Loop CorrLoop VecLemmas TransformProofs IterateProofs KKTProofs LoopTop FlowProofs.
 
 (* 1. the loop returns Optimal only with total_res <= opt_tol at the returned iterate, for every step
       oracle (Newton variant, step solver, linear solver, controller), penalty policy, clock and start *)
@@ -153,6 +153,32 @@ Proof.
   - constructor; try reflexivity. repeat constructor.
 Qed.
 
+(* the flow-integration solver: its status Optimal rests on RestrictedFlow.residuum (tested at the top of every
+   iteration and by the convergence event).  For every problem, point in the box, multiplier and tolerances: where that
+   measure (Flow.v, after the repair F18; its square, the code takes a 2-norm) is within the tolerance, the KKT residual
+   total_res of the internal problem, with the bound multipliers the solver itself reports, is within it too -- so
+   the theorems above about total_res apply to it.  The measure before the repair, which masked the rho = 0 flow
+   with the filter of the current rho, does not have this property: witness below, replayed on the real code (F18). *)
+Theorem C01_integration_residuum_bounds_total_res : forall (T : problem) atol x y tol,
+  0 <= atol -> 0 <= tol ->
+  length (var_lb T) = length x -> length (var_ub T) = length x ->
+  in_box (var_lb T) (var_ub T) x = true ->
+  residuum_sq T x y <= tol * tol ->
+  total_res T atol x y <= tol.
+Proof. exact residuum_bounds_total_res. Qed.
+Example C01_integration_old_measure_refuted :
+  let filt := create_filter f18_problem [0] [0] 16 in
+  filt = [false]
+  /\ qle (old_residuum_sq f18_problem [0] [0] filt) ((1 # 1024) * (1 # 1024)) = true
+  /\ qlt (1 # 1024) (total_res f18_problem (1 # 1048576) [0] [0]) = true
+  /\ qle (residuum_sq f18_problem [0] [0]) ((1 # 1024) * (1 # 1024)) = false.
+Proof. exact old_residuum_refuted. Qed.
+(* non-vacuity: the same problem at its KKT point (x = 0, y = 2^-8): the measure is |c| = 2^-11 *)
+Example C01_integration_nonvacuous :
+  qle (residuum_sq f18_problem [0] [1 # 256]) ((1 # 1024) * (1 # 1024)) = true
+  /\ in_box (var_lb f18_problem) (var_ub f18_problem) [0] = true.
+Proof. vm_compute. split; reflexivity. Qed.
+
 Print Assumptions C01_optimal_only_if_total_res.
 Print Assumptions C01_restored.
 Print Assumptions C01_bounds_exact.
@@ -164,3 +190,4 @@ Print Assumptions C01_unscaled_stationarity.
 Print Assumptions C01_unscaled_multiplier.
 Print Assumptions C01_unscaled_rows.
 Print Assumptions C01_end_to_end.
+Print Assumptions C01_integration_residuum_bounds_total_res.
